@@ -2333,6 +2333,73 @@ async fn a_belief_slot_does_not_list_a_proposition_the_caller_may_not_read() {
 }
 
 #[tokio::test]
+async fn a_field_mask_hides_a_reference_from_the_capsule_closure_as_well() {
+    // §109 / §144. The referential closure walked the references of the stored
+    // row, so a Capsule rooted at a Proposition carried its subject and object
+    // for a reader whose mask removes both members: which Concepts the Capsule
+    // holds was the disclosure.
+    let mut exported = Vec::new();
+    for (name, thing) in [("masked_closure_a", "tea"), ("masked_closure_b", "coffee")] {
+        let nexus = space_where_alice_prefers(name, thing).await;
+        let masked = reader_with_masked_propositions(
+            &nexus,
+            "kip:principal:masked",
+            &["predicate_ref"],
+            None,
+        )
+        .await;
+        let ids = |response: &Response, kind: &str| -> Vec<String> {
+            // (an empty record list is left out of the payload)
+            response.first_result().unwrap()["payload"]["records"][kind]
+                .as_array()
+                .map(|records| {
+                    records
+                        .iter()
+                        .map(|record| record["id"].as_str().unwrap().to_string())
+                        .collect()
+                })
+                .unwrap_or_default()
+        };
+        let query = r#"EXPORT CAPSULE ?p WHERE { ?p PROPOSITION (id: "P-1") }"#;
+        let response = run_as(&masked, query).await;
+        assert_eq!(response.status, TopLevelStatus::Succeeded);
+        assert_eq!(ids(&response, "propositions"), vec!["P-1".to_string()]);
+        assert!(
+            ids(&response, "concepts").is_empty(),
+            "the walk follows what the redacted view shows"
+        );
+        exported.push(ids(&response, "concepts"));
+
+        // An Assertion's references are not masked for this reader, so a
+        // closure from the Assertion still reaches the Proposition and the
+        // actor — and stops at the Proposition's own masked ends.
+        let response = run_as(
+            &masked,
+            r#"EXPORT CAPSULE ?a WHERE { ?a ASSERTION {id: "A-1"} }"#,
+        )
+        .await;
+        assert_eq!(ids(&response, "propositions"), vec!["P-1".to_string()]);
+        assert_eq!(ids(&response, "concepts"), vec!["C-1".to_string()]);
+
+        // A reader whose mask shows both ends exports them as before.
+        let seeing = reader_with_masked_propositions(
+            &nexus,
+            "kip:principal:seeing",
+            &["subject", "object"],
+            None,
+        )
+        .await;
+        let response = run_as(&seeing, query).await;
+        let other = if thing == "tea" { "C-2" } else { "C-3" };
+        assert_eq!(
+            ids(&response, "concepts"),
+            vec!["C-1".to_string(), other.to_string()]
+        );
+    }
+    assert_eq!(exported[0], exported[1]);
+}
+
+#[tokio::test]
 async fn a_read_grants_max_results_caps_the_response() {
     let nexus = stocked("max_results").await;
     let owner = nexus.system_session();
